@@ -113,6 +113,12 @@ func runWorker(sp *spec, bin string, j workerJob) (*result, error) {
 			Counters: map[string]int64{}, MaxBound: map[string]int{}}, nil
 	}
 	if rerr != nil {
+		if sig := crashSignature(string(outb)); sig != "" {
+			// the process died inside library code (Go runtime fatal error or an unrecovered panic on a goroutine the harness
+			// does not own): the executions of these scenarios did not satisfy the property
+			return &result{Violations: []violation{{Signature: sig, Message: "the worker process crashed while running scenarios " + fmt.Sprint(j.Scen) + ":\n" + firstN(string(outb), 3000), Scenario: "worker-crash"}},
+				Counters: map[string]int64{}, MaxBound: map[string]int{}}, nil
+		}
 		return nil, fmt.Errorf("worker produced no result (%v): %v\n%s\n[...]\n%s", rerr, err, firstN(string(outb), 2500), tail(outb, 2500))
 	}
 	var r result
@@ -134,6 +140,41 @@ func runWorker(sp *spec, bin string, j workerJob) (*result, error) {
 		return &r, fmt.Errorf("worker failed: %v\n%s", err, tail(outb, 6000))
 	}
 	return &r, nil
+}
+
+var crashLineRe = regexp.MustCompile(`(?m)^(fatal error: .*|panic: .*)$`)
+var libFrameRe = regexp.MustCompile(`(?m)^github\.com/bluenviron/gohlslib/v2(/pkg/\w+)?\.(\S+?)\(.*\n\s+(\S+):\d+`)
+
+// crashSignature classifies the output of a worker that died without writing a result: a Go fatal error / panic whose
+// first goroutine stack passes through library code (not the harness or its runtime). Resource exhaustion is not a crash
+// of the library.
+func crashSignature(out string) string {
+	m := crashLineRe.FindStringIndex(out)
+	if m == nil {
+		return ""
+	}
+	line := out[m[0]:m[1]]
+	if strings.Contains(line, "out of memory") || strings.Contains(line, "cannot allocate") {
+		return ""
+	}
+	rest := out[m[1]:]
+	// the stack of the crashing goroutine is the first one printed
+	if i := strings.Index(rest, "\n\ngoroutine "); i >= 0 {
+		if k := strings.Index(rest[i+2:], "\n\ngoroutine "); k >= 0 {
+			rest = rest[:i+2+k]
+		}
+	}
+	for _, x := range libFrameRe.FindAllStringSubmatch(rest, -1) {
+		fn, file := x[2], x[3]
+		if strings.Contains(file, "zz_verif") || strings.Contains(file, "zzverif") || strings.HasPrefix(fn, "internal/") {
+			continue
+		}
+		if len(line) > 90 {
+			line = line[:90]
+		}
+		return "crash:" + fn + ":" + line
+	}
+	return ""
 }
 
 var raceFuncRe = regexp.MustCompile(`(?m)^\s+github\.com/bluenviron/gohlslib/v2(\S*?)\(\)\s*\n\s+(\S+):\d+`)
@@ -522,20 +563,20 @@ func buildEvidence(sp *spec, tier string, seed int, m *result, distinct int, exh
 		samples = append(samples, v)
 	}
 	cov := map[string]any{
-		"evaluations":          m.Executions,
-		"distinct_nontrivial":  distinct,
-		"rule":                 sp.Rule,
-		"samples":              samples,
-		"exhaustive":           exhaustive,
-		"scenarios_listed":     nScen,
-		"scenarios_completed":  scenDone,
-		"decisions":            m.Decisions,
-		"oracle_steps":         m.Steps,
-		"caps_hit":             m.Caps,
-		"counters":             m.Counters,
+		"evaluations":              m.Executions,
+		"distinct_nontrivial":      distinct,
+		"rule":                     sp.Rule,
+		"samples":                  samples,
+		"exhaustive":               exhaustive,
+		"scenarios_listed":         nScen,
+		"scenarios_completed":      scenDone,
+		"decisions":                m.Decisions,
+		"oracle_steps":             m.Steps,
+		"caps_hit":                 m.Caps,
+		"counters":                 m.Counters,
 		"distinct_outcomes_capped": m.OutcomesCap,
-		"wall_budget_s":        budget.Seconds(),
-		"build_s":              buildS,
+		"wall_budget_s":            budget.Seconds(),
+		"build_s":                  buildS,
 	}
 	if len(m.MaxBound) > 0 {
 		minB, maxB := 1<<30, -1
